@@ -478,6 +478,9 @@ MUTANTS += [
          old="    return ts_[lpad:lpad + ts.shape[0]]\n", new="    return ts_[lpad:-lpad]\n"),
     dict(id="c20-lp-pad-floor", prop="C20", file="ibldsp/smooth.py",
          old="    lpad = int(np.ceil(ts.shape[0] * pad))\n", new="    lpad = int(np.round(ts.shape[0] * pad))\n    ts = ts[:ts.shape[0] - (lpad == 0 and pad > 0)]\n"),
+    dict(id="c05-revert-kfilt-pad-clamp", prop="C05", file="ibldsp/voltage.py",
+         old="    ntr_pad = min(int(ntr_pad), nx)\n    ntr_tap = ntr_pad if ntr_tap is None else ntr_tap\n    nxp = nx + ntr_pad * 2\n\n    # apply agc and keep the gain in handy\n    if not lagc:\n        xf = gp.copy(x)",
+         new="    ntr_pad = int(ntr_pad)\n    ntr_tap = ntr_pad if ntr_tap is None else ntr_tap\n    nxp = nx + ntr_pad * 2\n\n    # apply agc and keep the gain in handy\n    if not lagc:\n        xf = gp.copy(x)"),
     dict(id="c04-revert-sync-copy-verification", prop="C04", file="neuropixel.py",
          old="                    assert np.array_equal(\n                        expected[:, -1], srs[first:last, -1]\n                    ), \"data in original file and split files do no match\"\n",
          new=""),
